@@ -348,11 +348,15 @@ impl<'tx> TxInner<'tx> {
                 file.write_all(buf.as_slice())?;
             }
 
+            // The new meta page is visible through the mmap from here on, so the shared
+            // freelist has to match it even if the sync below fails.
+            {
+                let mut lock = self.db.inner.freelist.lock()?;
+                *lock = freelist.inner.clone();
+            }
+
             file.flush()?;
             file.sync_all()?;
-
-            let mut lock = self.db.inner.freelist.lock()?;
-            *lock = freelist.inner.clone();
             Ok(())
         } else {
             unreachable!()
